@@ -166,6 +166,8 @@ def concretise(profile, hist, first_regions, escale=None, scripts=None):
         steps.append(("addr", profile.region_spec(reg)))
     steps.append(("g", "G28", {}))
     inch = False
+    absolute = True
+    pos = {"X": 0, "Y": 0}            # ghost position in native lattice units (for arcs)
     for item in hist:
         kind, payload = item["k"], item["t"]
         if kind == "g":
@@ -179,6 +181,18 @@ def concretise(profile, hist, first_regions, escale=None, scripts=None):
             else:
                 words = payload[1] if isinstance(payload[1], dict) else {}
                 ptxt, cls = payload[2], payload[3]
+                if code in ("G2", "G3") and "I" in words:
+                    steps.append(("g", _real_arc(profile, code, pos, words), {"cls": cls}))
+                    pos["X"], pos["Y"] = words["X"] * profile.um, words["Y"] * profile.um
+                    continue
+                if code in ("G0", "G1"):
+                    unit = profile.ui if inch else profile.um
+                    for axis in ("X", "Y"):
+                        if axis in words:
+                            pos[axis] = words[axis] * unit if absolute else \
+                                pos[axis] + words[axis] * unit
+                elif code == "G28":
+                    pos = {"X": 0, "Y": 0}
                 parts = [code]
                 if ptxt:
                     words = {}
@@ -198,6 +212,10 @@ def concretise(profile, hist, first_regions, escale=None, scripts=None):
                 inch = True
             elif code == "G21":
                 inch = False
+            elif code == "G90":
+                absolute = True
+            elif code == "G91":
+                absolute = False
         elif kind == "at":
             acts, streaming = payload
             if acts:
@@ -208,6 +226,29 @@ def concretise(profile, hist, first_regions, escale=None, scripts=None):
         elif kind == "addr":
             steps.append(("addr", profile.region_spec(payload)))
     return steps
+
+
+def _real_arc(profile, code, pos, words):
+    """
+    A real, nearly straight arc from the ghost position to the commanded lattice point: radius
+    500 mm, centre on the side the direction (G2 clockwise / G3 counter-clockwise) requires for
+    the short arc.
+    """
+    import math
+    mm = float(profile.mmPerNative)
+    ax, ay = pos["X"] * mm, pos["Y"] * mm
+    bx, by = words["X"] * profile.um * mm, words["Y"] * profile.um * mm
+    dx, dy = bx - ax, by - ay
+    dist = math.hypot(dx, dy)
+    radius = 500.0
+    height = math.sqrt(radius * radius - dist * dist / 4.0)
+    side = 1.0 if code == "G3" else -1.0
+    cx = (ax + bx) / 2.0 + side * height * (-dy / dist)
+    cy = (ay + by) / 2.0 + side * height * (dx / dist)
+    return "%s X%s Y%s I%s J%s" % (code, profile.number(words["X"], False),
+                                  profile.number(words["Y"], False),
+                                  format(Decimal(repr(round(cx - ax, 6))), "f"),
+                                  format(Decimal(repr(round(cy - ay, 6))), "f"))
 
 
 def cleanup_cfg(name):
